@@ -866,8 +866,10 @@ static int32 parseSafeContents(psPool_t *pool, unsigned char *password,
             if ((rc = psX509ParseCert(pool, p, tmplen, &currCert,
                      CERT_STORE_UNPARSED_BUFFER)) < 0)
             {
+                /* Only the certificate that failed is released here. The
+                   certificates of earlier CertBags stay on *cert for the
+                   caller to free (setting *cert = NULL lost them). */
                 psX509FreeCert(currCert);
-                *cert = NULL;
                 psTraceCrypto("Couldn't parse certificate from CertBag\n");
                 return rc;
             }
